@@ -99,10 +99,14 @@ def BOUNDED(tier, seed):
                 xs, ys = [], []
                 for t in range(7):
                     x = {'id': t, 'v': t * 10}
-                    y = f'y{t}'
+                    # some arrivals carry no target (y omitted / None), one carries a falsy one: the stored target is then None / 0
+                    y = None if (sidx % 3 == 1 and t in (1, 4)) else (0 if (sidx % 3 == 2 and t == 2) else f'y{t}')
                     xs.append(x)
                     ys.append(y)
-                    st.update(x, y)
+                    if y is None and t == 1:
+                        st.update(x)
+                    else:
+                        st.update(x, y)
                     evals += 1
                     distinct.add((name, tg, sidx, t))
                     err = _check_view(st, xs, ys, cap, tg, order)
@@ -115,6 +119,7 @@ def BOUNDED(tier, seed):
         pyrandom.random, pyrandom.randrange = saved
     return [{'name': 'view_invariant_scripted_rng', 'evaluations': evals, 'distinct_nontrivial': len(distinct),
              'rule': 'every storage class x store_targets x capacity 1..3 x constant probability {default,0,0.5,1} x seeded scripted draw '
+                     'sequences (a third of them with arrivals whose target is omitted / None, a third with a falsy target 0); '
                      'sequences; after each of 7 updates the view is checked against the stream by object identity; distinct = '
                      '(config, script, prefix length)',
              'bound': '7 updates, capacity <= 3', 'failures': fails}]
